@@ -35,6 +35,7 @@ func init() {
 			witnessFamily("C14"),
 			{Name: "paths", N: tierN(120000, 6000000), Run: c14Paths},
 			{Name: "funcs", N: tierN(60000, 3000000), Run: c14Funcs},
+			{Name: "big", N: func(string) int { return len(c14BigList()) }, Run: c14Big},
 		},
 	})
 }
